@@ -21,6 +21,8 @@ MUTANTS = [
     m("c20-iadd-no-zero-guard", "R2", "        elif other != 0:\n            self.log_val = log_sum_exp(self.log_val, log(other))", "        else:\n            self.log_val = log_sum_exp(self.log_val, log(other))"),
     m("c20-mul-via-val", "R2", "            return LogRepFloat(log_val=self.log_val + other.log_val)", "            return LogRepFloat(val=self.val * other.val)"),
     m("c20-div-as-add", "R2", "            return LogRepFloat(log_val=self.log_val - other.log_val)", "            return LogRepFloat(log_val=self.log_val + other.log_val)"),
+    m("c20-sub-guard-strict", "R2", "            if self.log_val >= other.log_val:\n                return LogRepFloat(log_val=log_diff_exp(", "            if self.log_val > other.log_val:\n                return LogRepFloat(log_val=log_diff_exp("),
+    m("c20-twin-sub-guard-flipped", None, "            if self.log_val >= other.log_val:\n                return LogRepFloat(log_val=log_diff_exp(", "            if other.log_val <= self.log_val:\n                return LogRepFloat(log_val=log_diff_exp(", twin=True),
     m("c20-sub-args-swapped", "R2", "                return LogRepFloat(log_val=log_diff_exp(self.log_val, other.log_val))", "                return LogRepFloat(log_val=log_diff_exp(other.log_val, self.log_val))"),
     m("c20-lt-le", "R2", "    def __lt__(self, other: ScalarLike) -> bool:\n        if isinstance(other, LogRepFloat):\n            return self.log_val < other.log_val", "    def __lt__(self, other: ScalarLike) -> bool:\n        if isinstance(other, LogRepFloat):\n            return self.log_val <= other.log_val"),
     m("c20-ge-linear-gt", "R2", "            return self.log_val >= other.log_val\n        return self.val >= other", "            return self.log_val >= other.log_val\n        return self.val > other"),
